@@ -20,7 +20,8 @@ RULE = ('Objects: cached rrules and rrulesets whose length is one of {0,1,2,9,10
         'state with no runnable task and parked tasks is a deadlock (wait-for state, no timer).  (iii) free-running threads '
         '(switch interval 1 us, sleep(0) injected at the same lines) with the guard lock.  Every next() value / query answer is '
         'compared with L; any exception, shortfall, surplus or reordering is a violation.  Non-trivial = run with >= 2 live '
-        'iterators or >= 2 threads; distinct = distinct interleaving signatures (hash of the decision list) per scenario kind.')
+        'iterators or >= 2 threads; distinct = distinct interleaving signatures (hash of the decision list) per scenario kind.'
+        ' Also cached sets over cached member rules; guard locks are installed per distinct original lock object, so a lock that objects share stays shared.')
 ASSUMPTIONS = ['statement-granularity schedules over-approximate the switch points CPython\'s GIL allows',
                'L = list(uncached twin) is the reference (C01/C10)',
                'free-running runs only add evidence; their hangs are decided by lock ownership (owner finished or self), a bare watchdog expiry is inconclusive']
